@@ -417,3 +417,211 @@ NUMBER_TO_URL = Spec(
 @generator("PyFns_Routing")
 def gen_routing():
     return emit("Routing", [NUMBER_TO_PYTHON, NUMBER_TO_URL])
+
+
+# --------------------------------------------------------------------------
+# C17: content negotiation (datastructures/accept.py)
+
+from py2lean import Abs, Lst  # noqa: E402
+
+_K, _S = Abs("κ"), Abs("σ")
+_ACC = dict(
+    module="datastructures/accept.py",
+    # the class-specific parts (`_specificity`, `_value_matches`, the orders on qualities and on
+    # specificity tuples, the quality 0) are the fields of the model's `Neg` structure
+    type_params=["σ", "κ"],
+    orders={"κ": "N.qle", "σ": "N.sle"},
+)
+_ACC_CALLS = {
+    "self._value_matches": Fn("N.matches", [STR, STR], BOOL),
+    "self._specificity": Fn("N.spec", [STR], _S),
+}
+_SELF = ("self", "List (Str × κ)")
+_N = ("N", "Wz.Accept.Neg σ κ")
+
+ACC_BEST_SINGLE = Spec(qualname="Accept._best_single_match", name="best_single_match", opaque=[_N],
+                       params=[_SELF, ("match", "Str")], result="Option (Str × κ)", calls=_ACC_CALLS, **_ACC)
+ACC_QUALITY = Spec(qualname="Accept.quality", name="quality", opaque=[_N], params=[_SELF, ("key", "Str")],
+                   result="κ", calls=_ACC_CALLS, abs_lits={("κ", 0): "N.zero"}, **_ACC)
+ACC_CONTAINS = Spec(qualname="Accept.__contains__", name="contains", opaque=[_N], params=[_SELF, ("value", "Str")],
+                    result="Bool", calls=_ACC_CALLS, **_ACC)
+ACC_INDEX = Spec(qualname="Accept.index", name="index", opaque=[_N], params=[_SELF, ("key", "Str")],
+                 result="Int", raises=True, calls=_ACC_CALLS, **_ACC)
+ACC_FIND = Spec(qualname="Accept.find", name="find", opaque=[_N], params=[_SELF, ("key", "Str")], result="Int",
+                calls={"self.index": Fn("index", [STR], INT, raises=("ValueError",), extra=("N", "self"))}, **_ACC)
+ACC_BEST_MATCH = Spec(
+    qualname="Accept.best_match",
+    name="best_match",
+    # the sentinels `best_quality = -1` and `best_specificity = (-1,)` are parameters (any quality
+    # below 0 / any specificity: Props/C17T states what is assumed of them)
+    opaque=[_N, ("qm1", "κ"), ("sm1", "σ")],
+    params=[_SELF, ("matches", "List Str"), ("default", "Option Str")],
+    result="Option Str",
+    locals={"best_quality": "κ", "best_specificity": "σ"},
+    abs_lits={("κ", 0): "N.zero", ("κ", -1): "qm1"},
+    literals={"(-1,)": ("sm1", "σ")},
+    calls=dict(_ACC_CALLS, **{"self._best_single_match": Fn("best_single_match", [STR], Opt(Tup(STR, _K)), extra=("N", "self"))}),
+    **_ACC,
+)
+
+
+
+
+def _super_best_match(n):
+    """`super().best_match(X)` -> [X, None] (default=None)"""
+    import ast
+
+    f = n.func if isinstance(n, ast.Call) else None
+    if not (isinstance(f, ast.Attribute) and f.attr == "best_match" and isinstance(f.value, ast.Call) and isinstance(f.value.func, ast.Name) and f.value.func.id == "super" and not f.value.args):
+        return None
+    if len(n.args) != 1 or n.keywords:
+        return None
+    return [n.args[0], ast.Constant(value=None)]
+
+
+def _obj_best_match(n):
+    """`<name>.best_match(X)` on a local Accept object -> [<name>, X, None]"""
+    import ast
+
+    f = n.func if isinstance(n, ast.Call) else None
+    if not (isinstance(f, ast.Attribute) and f.attr == "best_match" and isinstance(f.value, ast.Name) and f.value.id != "self"):
+        return None
+    if len(n.args) != 1 or n.keywords:
+        return None
+    return [f.value, n.args[0], ast.Constant(value=None)]
+
+
+def _primary_tag(n):
+    """`_locale_delim_re.split(X, 1)[0]` -> [X]: the text before the first `_` or `-`"""
+    import ast
+
+    if not (isinstance(n, ast.Subscript) and isinstance(n.slice, ast.Constant) and n.slice.value == 0 and type(n.slice.value) is int):
+        return None
+    c = n.value
+    if not (isinstance(c, ast.Call) and py2lean.dotted(c.func) == "_locale_delim_re.split" and len(c.args) == 2 and not c.keywords):
+        return None
+    if not (isinstance(c.args[1], ast.Constant) and c.args[1].value == 1 and type(c.args[1].value) is int):
+        return None
+    return [c.args[0]]
+
+
+_LSK = Lst(Tup(STR, _K))
+LANG_BEST_MATCH = Spec(
+    qualname="LanguageAccept.best_match",
+    name="lang_best_match",
+    # N: the LanguageAccept class, A: the plain Accept class (for the `fallback` object);
+    # `Accept(values)` is the model's stable descending sort `mk A`
+    opaque=[_N, ("A", "Wz.Accept.Neg σ κ"), ("qm1", "κ"), ("sm1", "σ")],
+    params=[_SELF, ("matches", "List Str"), ("default", "Option Str")],
+    result="Option Str",
+    raises=True,  # next(...) raises StopIteration when nothing is found: proved impossible
+    abs_lits={("κ", 0): "N.zero"},
+    calls={
+        "self._best_single_match": Fn("best_single_match", [STR], Opt(Tup(STR, _K)), extra=("N", "self")),
+        "Accept": Fn("Wz.Accept.mk A", [_LSK], _LSK),
+    },
+    patterns=[
+        (_super_best_match, Fn("best_match N qm1 sm1 self", [Lst(STR), Opt(STR)], Opt(STR))),
+        (_obj_best_match, Fn("best_match A qm1 sm1", [_LSK, Lst(STR), Opt(STR)], Opt(STR))),
+        # `_locale_delim_re = re.compile(r"[_-]")`: pinned by `localeDelimRe`
+        (_primary_tag, Fn("Wz.Accept.primaryTag", [STR], STR)),
+    ],
+    **_ACC,
+)
+
+
+@generator("PyFns_Accept")
+def gen_accept():
+    extra = regex_const("werkzeug.datastructures.accept", "_locale_delim_re", "localeDelimRe")
+    return emit("Accept", [ACC_BEST_SINGLE, ACC_QUALITY, ACC_CONTAINS, ACC_INDEX, ACC_FIND, ACC_BEST_MATCH, LANG_BEST_MATCH], imports=["WzVerif.Model.Accept"], extra=extra)
+
+
+# --------------------------------------------------------------------------
+# C08: Headers / HeaderSet (stateful methods)
+
+_HL = "List (Str × Str)"
+STR_HEADER_VALUE = Spec(
+    module="datastructures/headers.py",
+    qualname="_str_header_value",
+    name="str_header_value",
+    # `value: t.Any` is restricted to str (the model receives the text): `str(value)` is not reached
+    params=[("value", "Str")],
+    result="Str",
+    raises=True,
+    # `_newline_re = re.compile(r"[\r\n]")`: pinned by `newlineRe`
+    calls={"_newline_re.search": Fn("Pre.newlineReSearch", [STR], Opt(py2lean.OBJ))},
+)
+_SHV = Fn("str_header_value", [STR], STR, raises=("ValueError",))
+HEADERS_ADD = Spec(
+    module="datastructures/headers.py",
+    qualname="Headers.add",
+    name="headers_add",
+    params=[("self._list", _HL), ("key", "Str"), ("value", "Str")],
+    state=["_list"],
+    result="Unit",
+    raises=True,
+    static={"kwargs": False},  # called without keyword arguments
+    calls={"_str_header_value": _SHV},
+)
+HEADERS_DEL_KEY = Spec(
+    module="datastructures/headers.py",
+    qualname="Headers._del_key",
+    name="headers_del_key",
+    params=[("self._list", _HL), ("key", "Str")],
+    state=["_list"],
+    locals={"new": _HL},
+    result="Unit",
+)
+HEADERS_REMOVE = Spec(
+    module="datastructures/headers.py",
+    qualname="Headers.remove",
+    name="headers_remove",
+    params=[("self._list", _HL), ("key", "Str")],
+    state=["_list"],
+    result="Unit",
+    calls={"self._del_key": Fn("headers_del_key", [STR], py2lean.NONE, state=("self._list",))},
+)
+
+
+HEADERS_SET = Spec(
+    module="datastructures/headers.py",
+    qualname="Headers.set",
+    name="headers_set",
+    params=[("self._list", _HL), ("key", "Str"), ("value", "Str")],
+    state=["_list"],
+    result="Unit",
+    raises=True,
+    static={"kwargs": False},
+    calls={"_str_header_value": _SHV},
+)
+
+
+@generator("PyFns_Headers")
+def gen_headers():
+    extra = regex_const("werkzeug.datastructures.headers", "_newline_re", "newlineRe")
+    return emit("Headers", [STR_HEADER_VALUE, HEADERS_ADD, HEADERS_DEL_KEY, HEADERS_REMOVE, HEADERS_SET], imports=["WzVerif.Model.Headers"], extra=extra)
+
+
+# --- HeaderSet (structures.py): state `_headers`, `_set` and the flag "on_update was called"
+
+_HS_PARAMS = [("self._headers", "List Str"), ("self._set", "Set Str"), ("self.notified", "Bool")]
+_HS_KEYS = ("self._headers", "self._set", "self.notified")
+_HS = dict(
+    module="datastructures/structures.py",
+    state=["_headers", "_set", "notified"],
+    # an `on_update` callback is installed (as in the model); calling it is modelled as a flag
+    static={"self.on_update is not None": True},
+    effects={"self.on_update(self)": [("self.notified", "True")]},
+)
+HS_UPDATE = Spec(qualname="HeaderSet.update", name="hs_update", params=_HS_PARAMS + [("iterable", "List Str")], result="Unit", **_HS)
+HS_ADD = Spec(qualname="HeaderSet.add", name="hs_add", params=_HS_PARAMS + [("header", "Str")], result="Unit",
+              calls={"self.update": Fn("hs_update", [Lst(STR)], py2lean.NONE, state=_HS_KEYS)}, **_HS)
+HS_REMOVE = Spec(qualname="HeaderSet.remove", name="hs_remove", params=_HS_PARAMS + [("header", "Str")], result="Unit", raises=True, **_HS)
+HS_DISCARD = Spec(qualname="HeaderSet.discard", name="hs_discard", params=_HS_PARAMS + [("header", "Str")], result="Unit",
+                  calls={"self.remove": Fn("hs_remove", [STR], py2lean.NONE, raises=("KeyError",), state=_HS_KEYS)}, **_HS)
+HS_SETITEM = Spec(qualname="HeaderSet.__setitem__", name="hs_setitem", params=_HS_PARAMS + [("idx", "Int"), ("value", "Str")], result="Unit", raises=True, **_HS)
+
+
+@generator("PyFns_HeaderSet")
+def gen_headerset():
+    return emit("HeaderSet", [HS_UPDATE, HS_ADD, HS_REMOVE, HS_DISCARD, HS_SETITEM])
